@@ -146,7 +146,7 @@ def run(rep):
     sk = LS.check(rep, C.ensure_harness(), ["Store", "UpdateTx", "DeleteOld", "DeleteTx", "Get", "GetFiles",
                                              "core.", "dir.", "txrepo.", "di."])
     corpus = P.corpus("c15.txt")
-    n = 60 if rep.tier == "quick" else 1200
+    n = 60 if rep.tier == "quick" else 4000
     if LS.broken(sk):
         n = max(n, 400)
     cases = corpus + [gen_case(rng, "r%d" % i) for i in range(n)] + [gen_tx_case(rng, "t%d" % i) for i in range(n // 2)]
